@@ -141,17 +141,22 @@ def gate_on_path(repo, canon, pc, plogic, f, fr, p, i, key, T):
             return 'all()'
     # (c) counting idiom: not (count < len(pred))
     for e in reversed(p.events[:i]):
-        if e.kind != 'test' or not isinstance(e.node, ast.Compare) or len(e.node.ops) != 1:
+        if e.kind != 'test':
             continue
-        l, r, op = e.node.left, e.node.comparators[0], e.node.ops[0]
+        tnode, tpol = e.node, e.pol
+        while isinstance(tnode, ast.UnaryOp) and isinstance(tnode.op, ast.Not):
+            tnode, tpol = tnode.operand, not tpol
+        if not isinstance(tnode, ast.Compare) or len(tnode.ops) != 1:
+            continue
+        l, r, op = tnode.left, tnode.comparators[0], tnode.ops[0]
         cnt = lst = None
         ge = None
         if isinstance(l, ast.Name) and _is_len(r):
             cnt, lst = l, r.args[0]
-            ge = {ast.Lt: not e.pol, ast.GtE: e.pol, ast.Eq: e.pol, ast.NotEq: not e.pol}.get(type(op))
+            ge = {ast.Lt: not tpol, ast.GtE: tpol, ast.Eq: tpol, ast.NotEq: not tpol}.get(type(op))
         elif isinstance(r, ast.Name) and _is_len(l):
             cnt, lst = r, l.args[0]
-            ge = {ast.Gt: not e.pol, ast.LtE: e.pol, ast.Eq: e.pol, ast.NotEq: not e.pol}.get(type(op))
+            ge = {ast.Gt: not tpol, ast.LtE: tpol, ast.Eq: tpol, ast.NotEq: not tpol}.get(type(op))
         if cnt is None or not ge:
             continue
         if pc.p(lst, fr) not in srcs:
